@@ -29,6 +29,7 @@ func aggList(t *rapid.T) ([]*live.Live, string) {
 		k0 = 65536 - span
 	}
 	var out []*live.Live
+	var specs []gen.BitmapSpec
 	descs := []string{fmt.Sprintf("keys %d..%d", k0, k0+span-1)}
 	for i := 0; i < n; i++ {
 		label := fmt.Sprintf("m%d", i)
@@ -44,6 +45,39 @@ func aggList(t *rapid.T) ([]*live.Live, string) {
 				descs = append(descs, "dup")
 				continue
 			}
+		case 2, 3: // related to an earlier member (complement, threshold, shifted, touching spans, ...)
+			if len(specs) > 0 {
+				src := specs[rapid.IntRange(0, len(specs)-1).Draw(t, label+".relTo")]
+				bs, rel := gen.Related(t, label, src, gen.KindsValid)
+				f := live.DrawForm(t, label+".form")
+				l, err := live.Make(bs, f)
+				if err != nil {
+					t.Fatalf("harness: %v", err)
+				}
+				// at the front (so that the pair is folded first) or at the end
+				if rapid.Bool().Draw(t, label+".front") {
+					out = append([]*live.Live{l}, out...)
+				} else {
+					out = append(out, l)
+				}
+				specs = append(specs, bs)
+				descs = append(descs, fmt.Sprintf("%s(%s) as %s", rel, bs, f))
+				continue
+			}
+		case 4: // completely full chunks on some of the window's keys
+			fm := model.New()
+			for k := 0; k < span && k < 4; k++ {
+				if k == 0 || rapid.Bool().Draw(t, label+".fullAlso") {
+					fm.AddRange(uint64(k0+k)<<16, uint64(k0+k)<<16+65535)
+				}
+			}
+			l, err := live.Make(gen.FromSet(t, label+".full", fm, gen.KindsAnyLegal), live.DrawForm(t, label+".form"))
+			if err != nil {
+				t.Fatalf("harness: %v", err)
+			}
+			out = append([]*live.Live{l}, out...) // at the front, where the accumulator of an intersection starts out full
+			descs = append(descs, "full chunks (placed first)")
+			continue
 		}
 		// a subset of the window's keys
 		density := rapid.SampledFrom([]int{1, 2, 4}).Draw(t, label+".density")
@@ -63,6 +97,7 @@ func aggList(t *rapid.T) ([]*live.Live, string) {
 			t.Fatalf("harness: %v", err)
 		}
 		out = append(out, l)
+		specs = append(specs, bs)
 		descs = append(descs, fmt.Sprintf("%s as %s", bs, f))
 	}
 	return out, strings.Join(descs, " || ")
